@@ -115,19 +115,22 @@ CO_Tree::CO_Tree(Iterator i, const dimension_type n) {
     else {
       if (top_n == 1) {
         PPL_ASSERT(root.index() == unused_index);
-        root.index() = i.index();
         try {
+          // The index is set after the element has been constructed, so
+          // that destroy() only sees completely built elements.
           new(&(*root)) data_type(*i);
+          root.index() = i.index();
+          // Advancing a user-defined iterator may compute the next
+          // element and hence may throw, too.
+          ++i;
         }
         catch (...) {
-          // The element has not been constructed. As the constructor is
-          // exited by an exception, the destructor will not be run:
-          // release the elements built so far, indexes[] and data[].
-          root.index() = unused_index;
+          // As the constructor is exited by an exception, the destructor
+          // will not be run: release the elements built so far,
+          // indexes[] and data[].
           destroy();
           throw;
         }
-        ++i;
         --stack_first_empty;
       }
       else {
